@@ -143,20 +143,26 @@ the SRT, WebVTT, SSA and STL reader loops). With the tag off `verifEmit` is an e
 
 %s
 
-171 changes were written by sub-agents that saw only property texts and a scratch worktree: 39 "plausible refactoring"
-seeds in four batches, 96 mutation-testing style changes in three batches (four per source file or area, including
-the command-line tool) and 36 mutants aimed at one property each. 169 of them break a property as stated and all 169
-are caught by the quick tier (the CLI mutants by C07, which drives the tool). Two are not flagged, and should not be: C06-c is an equivalent change (it
-only merges two runs with identical attributes) and P6-2 changes the character-set designation through X/28
-packets, which the statement of C06 does not cover and the specification does not model. 42 of the 169 were missed or
-barely caught when first run; every miss was answered by widening a *generator* or the *model* (never by loosening an
-oracle): new families (WebVTT N and K, TTML L and A, SSA I, teletext I and M), new rendering choices (per-row box
-patterns, comment-like and non-dialogue lines in SubStation files, inline timestamps without hours, text-like bytes in
-enhancement packets), new value classes (33-bit MPEG-TS time stamps, tick counts beyond 32 bits, full-width GSI
-fields, literal entity sequences, one-character runs, two-line text atoms, style names around "Default"), new
-observations (zero-valued reader options, Open with options, definitions stored under foreign map keys) and a
-systematic pass of every operation kind over 16 goroutines for C20. After each round all earlier changes were
-re-run (`seedtool.sh runcopy`, a scratch worktree selected through `VERIF_REPO`); the tables list the final state.
+193 changes were written by sub-agents that saw only property texts and a scratch worktree: 39 "plausible refactoring"
+seeds in four batches, 96 mutation-testing style changes in three batches (four per source file or area, including the
+command-line tool), 36 mutants aimed at one property each and 22 mutants of functions no earlier round had touched. 190
+of them break a property as stated and all 190 are caught by the quick tier (the CLI mutants by C07, which drives the
+tool). Three are not flagged, and should not be: C06-c is an equivalent change (it only merges two runs with
+identical attributes); P6-2 changes the character-set designation through X/28 packets, which the statement of C06
+does not cover and the specification does not model; R1-2 changes a helper (`WebVTTTimestampMap.Offset`) that nothing
+in the library calls and no statement mentions. About fifty of the 190 were missed or barely caught when first run (or
+would have been, judging from their description, and were pre-empted); every miss was answered by widening a
+*generator* or the *model* (never by loosening an oracle): new families (WebVTT N and K, TTML L and A, SSA I, teletext
+I and M), new rendering choices (per-row box patterns, comment-like and non-dialogue lines in SubStation files, inline
+timestamps without hours, text-like bytes in enhancement packets, prefixed TTML elements, a font tag with a leading
+attribute, a PCR on another time base), new value classes (33-bit MPEG-TS time stamps, tick counts beyond 32 bits,
+times beyond 24 h, full-width GSI and text fields, literal entity sequences, one-character runs, two-line text atoms,
+style names around "Default", file names with capitals), new observations (zero-valued reader options, Open with
+options, definitions stored under foreign map keys, the clock-default equivalence of the STL dates, a `bytes.Reader`
+reference delivery) and a systematic pass of every operation kind over 16 goroutines for C20. One of the sub-agents'
+remarks (the teletext reader cannot be driven through short reads) led to a genuine defect being found and repaired
+(`be3a749`). After each round all earlier changes were re-run (`seedtool.sh runcopy`, a scratch worktree selected
+through `VERIF_REPO`); the tables list the final state.
 
 ### 10.7 Binding self-test
 
